@@ -338,6 +338,36 @@ def EventNoRoot (root : Mod) : Event Mod Content → Prop
   | .didRename pairs => ∀ p ∈ pairs, p.1 ≠ some root ∧ p.2 ≠ some root
   | .didDelete files => ∀ m, some m ∈ files → m ≠ root
 
+/-! ## Name identity across the history
+
+The model treats names (and therefore signatures) as values: `ck.sig m c` is *the* signature of text
+`c` under module `m`, whenever it is built.  The implementation interns identifiers of ≥ 16 bytes in
+a heap that is garbage-collected after every recheck (`perform_gc_after_recheck`), and compares
+them by allocation id; a signature built at an earlier operation is only the signature built now if
+the names the retained modules hold keep their identity.  `EChecker` makes this explicit: the
+signature builder is indexed by the operation count ("epoch") at which it runs. -/
+
+structure EChecker (Mod Content Sig Err : Type) where
+  base : Checker Mod Content Sig Err
+  /-- `build_module_signature(m, parse(c, m))` executed at epoch `t` (0 = `ServerState::new`) -/
+  sigAt : Nat → Mod → Content → Sig
+
+/-- The checker as it behaves at epoch `t`. -/
+def EChecker.at (e : EChecker Mod Content Sig Err) (t : Nat) : Checker Mod Content Sig Err :=
+  { e.base with sig := e.sigAt t }
+
+/-- **`NamesStable`**: a signature built at one epoch is the signature built at any other (a name
+held by a retained module keeps its identity: it is never reclaimed and re-interned under another
+id).  Checked dynamically after every operation (harness `#names`). -/
+def NamesStable (e : EChecker Mod Content Sig Err) : Prop :=
+  ∀ (t t' : Nat) (m : Mod) (c : Content), e.sigAt t m c = e.sigAt t' m c
+
+/-- The history run with the epoch-indexed checker: operation number `t` uses `e.at t`. -/
+def runE (e : EChecker Mod Content Sig Err) : Nat → List (Op Mod Content) →
+    State Mod Content Sig Err → State Mod Content Sig Err
+  | _, [], s => s
+  | t, op :: ops, s => runE e (t + 1) ops (step (e.at t) s op)
+
 end Model
 
 end SamVerif.Incremental
